@@ -61,12 +61,18 @@ type c12h struct {
 	sent        []string
 	finished    map[int]bool
 	handled     map[int]int
+	parked      map[int]chan struct{}
+	parkedAddr  map[int]string
 }
 
 const (
 	kindValid = iota
 	kindProgress
 	kindUnrelated
+	// a valid answer whose handler takes its time (real handlers write to
+	// caches and hand filters and headers on through channels): it parks
+	// until the harness lets it return
+	kindSlow
 )
 
 func c12msg(req, kind int) wire.Message { return wire.NewMsgPong(uint64(req*10 + kind)) }
@@ -74,13 +80,20 @@ func c12msg(req, kind int) wire.Message { return wire.NewMsgPong(uint64(req*10 +
 func (h *c12h) request(id int) *query.Request {
 	return &query.Request{
 		Req: wire.NewMsgPing(uint64(id)),
-		HandleResp: func(_, resp wire.Message, _ string) query.Progress {
+		HandleResp: func(_, resp wire.Message, peerAddr string) query.Progress {
 			pong, ok := resp.(*wire.MsgPong)
 			if !ok || int(pong.Nonce)/10 != id {
 				return query.Progress{}
 			}
 			h.handled[id]++
 			switch int(pong.Nonce) % 10 {
+			case kindSlow:
+				g := make(chan struct{})
+				h.parked[id] = g
+				h.parkedAddr[id] = peerAddr
+				<-g
+				h.finished[id] = true
+				return query.Progress{Finished: true, Progressed: true}
 			case kindValid:
 				h.finished[id] = true
 				return query.Progress{Finished: true, Progressed: true}
@@ -136,7 +149,8 @@ func c12Body(t *testing.T, depth, maxPeers int) func(c *verifeng.Chooser) {
 }
 
 func c12Run(c *verifeng.Chooser, depth, maxPeers int) {
-	h := &c12h{c: c, finished: map[int]bool{}, handled: map[int]int{}}
+	h := &c12h{c: c, finished: map[int]bool{}, handled: map[int]int{}, parked: map[int]chan struct{}{}, parkedAddr: map[int]string{}}
+	var stopTask *verifbubble.Task
 	peerFeed := make(chan query.Peer)
 	feedCancelled := false
 	wm := query.NewWorkManager(&query.Config{
@@ -186,7 +200,7 @@ func c12Run(c *verifeng.Chooser, depth, maxPeers int) {
 		h.outstanding = keep
 	}
 	deliver := func(o *c12out, kind int) bool {
-		if kind == kindValid {
+		if kind == kindValid || kind == kindSlow {
 			h.removeOut(o)
 		}
 		return act(fmt.Sprintf("deliver(%s,r%d,%d)", o.peer.name, o.req, kind), func() { o.peer.msgs <- c12msg(o.req, kind) })
@@ -262,8 +276,19 @@ func c12Run(c *verifeng.Chooser, depth, maxPeers int) {
 			}
 			for _, o := range h.outstanding {
 				o := o
-				for kind, kn := range []string{"valid answer", "progress only", "unrelated message"} {
+				// a worker busy in a handler does not read from its peer
+				busy := false
+				for id := range h.parked {
+					busy = busy || h.parkedAddr[id] == o.peer.addr
+				}
+				if busy {
+					continue
+				}
+				for kind, kn := range []string{"valid answer", "progress only", "unrelated message", "valid answer (its handler takes its time)"} {
 					kind, kn := kind, kn
+					if kind == kindSlow && len(h.parked) > 0 {
+						continue
+					}
 					menu = append(menu, ev{fmt.Sprintf("%s sends %s for r%d", o.peer.name, kn, o.req), func() bool { return deliver(o, kind) }})
 				}
 			}
@@ -284,7 +309,21 @@ func c12Run(c *verifeng.Chooser, depth, maxPeers int) {
 			}
 			menu = append(menu, ev{"Stop", func() bool {
 				stopped = true
-				return act("Stop", func() { wm.Stop() })
+				if len(h.parked) == 0 {
+					return act("Stop", func() { wm.Stop() })
+				}
+				// Stop may wait for a handler that is still running
+				stopTask = verifbubble.Go("Stop", func() (any, error) { wm.Stop(); return nil, nil })
+				verifbubble.Wait()
+				return true
+			}})
+		}
+		for id, g := range h.parked {
+			id, g := id, g
+			menu = append(menu, ev{fmt.Sprintf("the handler of r%d returns", id), func() bool {
+				delete(h.parked, id)
+				close(g)
+				return true
 			}})
 		}
 		if len(menu) == 0 {
@@ -300,6 +339,15 @@ func c12Run(c *verifeng.Chooser, depth, maxPeers int) {
 		return
 	}
 	verifbubble.Wait()
+	for id, g := range h.parked {
+		delete(h.parked, id)
+		close(g)
+	}
+	verifbubble.Wait()
+	if stopTask != nil && !stopTask.Done() {
+		c.Fail("stuck", "stop-blocks-after-handler-returned", "Stop was called while a response handler was running; the handler has returned and every goroutine is idle, but Stop has not returned")
+		return
+	}
 	dedupeOut()
 
 	// ---- liveness probe: a later batch with a responsive fresh peer must
